@@ -77,6 +77,9 @@ type Stats struct {
 	DistinctEvals    int // distinct (expression node, offset) pairs evaluated
 	CodeReevalDiff   int // a code block evaluated again at the same offset with different label values
 	LabelReeval      int // a labelled expression evaluated again at an offset where it was evaluated before
+	// LRDroppedErrs counts, by message, the errors that an invocation of a left-recursive rule
+	// dropped (final non-extending growth attempt, invocation failing outright).
+	LRDroppedErrs map[string]int
 }
 
 // Result of a reference evaluation.
@@ -471,6 +474,16 @@ func (it *interp) inLRRule(name string) bool {
 // lrRule evaluates A <- A t1 / ... / A tn / b1 / ... / bm by its denotation: ordered
 // choice of the bases, then a greedy loop of the ordered choice of the tails with the
 // recursive reference bound to the result so far.
+func (it *interp) dropErrs(mark int) {
+	for _, e := range it.errs[mark:] {
+		if it.st.LRDroppedErrs == nil {
+			it.st.LRDroppedErrs = map[string]int{}
+		}
+		it.st.LRDroppedErrs[e.Msg]++
+	}
+	it.errs = it.errs[:mark]
+}
+
 func (it *interp) lrRule(r *gspec.Rule, off int) (any, int, bool) {
 	if s := it.lrSeed[r.Name]; s != nil && s.start == off {
 		// the recursive reference at the start offset: the result so far
@@ -508,7 +521,7 @@ func (it *interp) lrRule(r *gspec.Rule, off int) (any, int, bool) {
 	if !ok {
 		// pinned by probe: an invocation that fails outright goes through the same exit as the
 		// final non-extending attempt - the errors and state changes it produced are dropped
-		it.errs = it.errs[:errEntry]
+		it.dropErrs(errEntry)
 		it.state = stEntry
 		return nil, off, false
 	}
@@ -533,7 +546,7 @@ func (it *interp) lrRule(r *gspec.Rule, off int) (any, int, bool) {
 		}
 		if !grown {
 			// the final, non-extending attempt leaves no errors and no state behind
-			it.errs = it.errs[:errMark]
+			it.dropErrs(errMark)
 			it.state = stMark
 			break
 		}
